@@ -199,6 +199,11 @@ func BuildMetrics(req int, r Request) pmetric.Metrics {
 				m.SetName(fmt.Sprintf("metric-%d.%d.%d.%d", req, ri, si, mi))
 				m.SetDescription(fmt.Sprintf("desc %d", mi))
 				m.SetUnit(fmt.Sprintf("u%d", mi))
+				if mi%2 == 0 {
+					// metric-level metadata (OTLP Metric.metadata), part of what a
+					// metric arrived with
+					m.Metadata().PutStr("origin", fmt.Sprintf("o%d.%d", req, mi))
+				}
 				id := func(a pcommon.Map) {
 					a.PutStr("id", fmt.Sprintf("r%d-%d", req, k))
 					a.PutInt("k", int64(k))
@@ -269,7 +274,14 @@ func metricFP(m pmetric.Metric) string {
 	case pmetric.MetricTypeExponentialHistogram:
 		extra = fmt.Sprintf("%d", m.ExponentialHistogram().AggregationTemporality())
 	}
-	return fmt.Sprintf("M(%q,%q,%q,%s,%s)", m.Name(), m.Description(), m.Unit(), m.Type(), extra)
+	meta := ""
+	if v, ok := m.Metadata().Get("origin"); ok {
+		meta = ",metadata origin=" + v.AsString()
+	}
+	if m.Metadata().Len() > 1 {
+		meta += fmt.Sprintf(",+%d entries", m.Metadata().Len()-1)
+	}
+	return fmt.Sprintf("M(%q,%q,%q,%s,%s%s)", m.Name(), m.Description(), m.Unit(), m.Type(), extra, meta)
 }
 
 func idOf(a pcommon.Map) string {
